@@ -14,10 +14,31 @@ ASSUMPTIONS = [
 ]
 
 
+# a rule instance is owned by one property, but the clause it decides can be a necessary condition of others as well;
+# those checks run it too (one defect is then reported under every property it breaks)
+EXTRA_PROPS = {
+    'R-LIST-C06': ['C01', 'C07'], 'R-LIST-C07': ['C01', 'C06'], 'R-LIST-C03': ['C04'],
+    'R-ELECT-C08': ['C01'], 'R-ELECT-C10': ['C01'], 'R-ELECT-C13': ['C01'], 'R-ELECT-C14': ['C01'], 'R-ELECT-C19': ['C01'], 'R-ELECT-C06': ['C01'],
+    'R-ELECT-C01': ['C04', 'C05'],
+    'R-DEREG-C07': ['C04'], 'R-DEREG-C14': ['C04'], 'R-DEREG-C19': ['C04'], 'R-DEREG-C13': ['C04'], 'R-DEREG-C18': ['C04'], 'R-DEREG-C10': ['C04'],
+    'R-DEREG-C04': ['C02'],
+    'R-SIG-1': ['C05', 'C13', 'C19'], 'R-SIG-3': ['C02'],
+    'R-MLT-HOST': ['C13'], 'R-MLT-FLAG': ['C01', 'C05', 'C13'], 'R-MLT-PAIR': ['C10', 'C16'], 'R-UAC-RELEASE': ['C01', 'C04', 'C19'],
+    'R-LOCK-C06': ['C01'], 'R-LOCK-C07': ['C06'], 'R-NOTIFY': ['C07', 'C01'],
+    'R-MO-C01': ['C04'], 'R-MO-C06': ['C14', 'C15'], 'R-MO-C15': ['C16'], 'R-MO-C19': ['C15', 'C16'],
+    'R-QRY': ['C04', 'C18'],
+    'R-INIT-DISCR': ['C07'],
+}
+
+
 def load_rules():
     from . import rules
     for m in pkgutil.iter_modules(rules.__path__):
         importlib.import_module('usa.rules.' + m.name)
+    for rid, extra in EXTRA_PROPS.items():
+        if rid in core.RULES:
+            for p in extra:
+                if p not in core.RULES[rid]['props']: core.RULES[rid]['props'] = list(core.RULES[rid]['props']) + [p]
 
 
 def main(argv=None):
